@@ -149,3 +149,16 @@ static void op_scan_partial(int argc, char **argv)
 const op_t ops_printf[] = { {"gmp_printf_Z", op_printf_Z}, {"gmp_printf_Q", op_printf_Q}, {"gmp_printf_N", op_printf_N}, {"gmp_printf_M", op_printf_M},
                             {"gmp_snprintf_sweep", op_snprintf_sweep}, {"gmp_printf_mixed", op_printf_mixed}, {"gmp_scan_rt", op_scan_rt},
                             {"gmp_scan_partial", op_scan_partial}, {NULL, NULL} };
+/* gmp_printf_F spec conv precbits mant exp2 : "%<spec>F<conv>" of mant * 2^exp2 held exactly: output bytes, return value */
+static void op_printf_F(int argc, char **argv)
+{
+  (void)argc; size_t n = unhexs(argv[1], sb, sizeof sb - 1); sb[n] = 0; char conv = (char)arg_l(argv[2]);
+  mpf_t f; mpz_t m; parse_z(argv[4], m); long e = arg_l(argv[5]);
+  unsigned long pb = arg_ul(argv[3]), need = (unsigned long)(ABSIZ(m) + 1) * 64; mpf_init2(f, pb > need ? pb : need); mpf_set_z(f, m);
+  if (e >= 0) mpf_mul_2exp(f, f, (mp_bitcnt_t)e); else mpf_div_2exp(f, f, (mp_bitcnt_t)(-e));
+  char fmt[600]; snprintf(fmt, sizeof fmt, "%%%sF%c", (char *)sb, conv);
+  char *p = NULL; int r = gmp_asprintf(&p, fmt, f);
+  size_t l = strlen(p); out_bytes((unsigned char *)p, l); outl(r); free_str(p, l + 1);
+  mpf_clear(f); mpz_clear(m);
+}
+const op_t ops_printf2[] = { {"gmp_printf_F", op_printf_F}, {NULL, NULL} };
